@@ -318,6 +318,17 @@ class TextFormat:
             left_side = f'{int(number_value):{thousands}}'
             right_side = None
         left_side = left_side.lstrip('0')
+        if thousands == ',':
+            # the zeros a format like 0,000 asks for are grouped as well
+            sign = '-' if left_side.startswith('-') else ''
+            digits = left_side.lstrip('-').replace(',', '').lstrip('0').zfill(
+                left_num_format.count('0') if tokenized.decimal
+                else number_format.count('0'))
+            groups = []
+            while digits:
+                groups.append(digits[-3:])
+                digits = digits[:-3]
+            left_side = sign + ','.join(groups[::-1])
 
         tokens_iter = iter(tokenized.tokens)
         left_side_tokens = tuple(it.takewhile(lambda t: t.token != '.', tokens_iter))
